@@ -85,7 +85,7 @@ func c09R7(ic *IC, r *Report) {
 		// only watchers: the method calls stop
 		callsStop := false
 		for _, e := range g.Out[top] {
-			if e.To.Name() == "stop" {
+			if ssaFuncName(e.To) == "(*Interpreter).stop" {
 				callsStop = true
 			}
 		}
@@ -196,7 +196,7 @@ func c09R1(ic *IC, r *Report, rule string) {
 				if f == nil {
 					return ""
 				}
-				k := shortKey(objKey(f))
+				k := canonKey(f.Pkg(), shortKey(objKey(f)))
 				if k == "interp.frame.runid" {
 					se := unparen(c.Fun).(*ast.SelectorExpr)
 					if id := rootIdent(se.X); id != nil && ic.Info.ObjectOf(id) == frameObj {
@@ -251,7 +251,7 @@ func staticCalleeName(c *ssa.CallCommon) string {
 }
 
 func c09R2(ic *IC, r *Report) {
-	newFrame := ic.SP.Func("newFrame")
+	newFrame := ic.ssaFunc("newFrame")
 	if newFrame == nil {
 		r.Errorf("anchor not resolved: newFrame")
 		return
